@@ -39,8 +39,12 @@ FLOORS = {"quick": {"evaluations": 500, "genuine_accepted": 60, "variants_refuse
 
 def shards(tier, seed):
     if tier == "quick":
-        return [{"seed": seed * 1000 + i, "n": 3} for i in range(16)]
-    return [{"seed": seed * 1000 + i, "n": 60} for i in range(32)]
+        return [{"seed": seed * 1000 + i, "python_O": i % 3 == 2,
+                 "tz": [None, "EAST-14", "WEST+12", "Asia/Kolkata"][i % 4],
+                 "n": 3} for i in range(16)]
+    return [{"seed": seed * 1000 + i, "python_O": i % 3 == 2,
+             "tz": [None, "EAST-14", "WEST+12", "Asia/Kolkata"][i % 4],
+             "n": 60} for i in range(32)]
 
 
 def run_cmd(fn, opts):
@@ -406,7 +410,8 @@ def sgx_case(acc, rng, variant, tmpdir, case):
         expect_ok = False
     elif variant == "root-expired":
         root_cert = g2.make_cert("root", m.root_key.public_key(), "root", m.root_key,
-                                 window="expired")
+                                 window=rng.choice(["expired", "expired_recently",
+                                                    "valid_soon"]))
         expect_ok = False
     elif variant == "flip-quote-signature":
         e = [x for x in doc["elements"] if x["name"] == "quote"][0]
